@@ -63,6 +63,10 @@ def run(tier):
     for i in range(n):
         m = genlib.rand_sm_model(r, "cpp", thorough)
         m.pop("templatedir", None)      # C09 is about the boost::sml table of the default template set
+        if i < len(genlib.SHORT_NAMES):
+            # a target state with a very short name (On, No, One, N ...): the words the emitter treats as "no target" are
+            # none / None / '' and nothing else
+            m = genlib.with_state_named(m, genlib.SHORT_NAMES[i], target=True)
         m["dclspc"] = r.choice(["", "MY_EXPORT"])
         jobs.append((m, thorough or i % 3 == 0))
     with concurrent.futures.ProcessPoolExecutor(max_workers=14) as ex:
